@@ -149,6 +149,10 @@ class C14(core.Check):
         src = d.src if case['newline_end'] else d.src.rstrip('\n')
         lang = {'en': 'en-GB', 'de': 'de-DE', 'ru': 'ru-RU'}[case['lang']]
         plan = {'mode': 'words', 'regex': WORD, 'every': case['every']}
+        if case['s'] % 3 == 1:
+            # in addition one match over the whole text (a sentence-level rule): the flagged words lie inside it
+            plan['extra'] = [['span', r'(?s)\S.*\S']]
+            cnt['docs_with_enclosing_match'] = 1
         words = {w: st for w, st, path in d.words}
         # a word with a separate combining accent is cut by the proofreader's word pattern: the piece may equal
         # another (shorter) generated word -> such pieces are not judged
@@ -194,7 +198,8 @@ class C14(core.Check):
         if offs_all != sorted(offs_all):
             return dict(ok=False, nt=True, key='json:order-with-own-checks' if own else 'json:order', cnt=cnt, obs=None,
                         detail=dict(src=src, offsets=offs_all))
-        jm = [m for m in jm_all if m['message'].startswith('MSG')]
+        # (the enclosing match 'MSG<call>.x0' only shapes the report, it is not judged itself)
+        jm = [m for m in jm_all if m['message'].startswith('MSG') and '.x' not in m['message'].split(':', 1)[0]]
         locs = {}
         order = []
         for m in jm:
@@ -240,7 +245,7 @@ class C14(core.Check):
             if ctxline[len(sp):len(sp) + len(mark)] != w:
                 return dict(ok=False, nt=True, key='plain:context', cnt=cnt, obs=None,
                             detail=dict(src=src, word=w, context=ctxline, marker=sp + mark))
-        if [b[4] for b in blocks] != [m['message'].split(':', 1)[0] for m in jm]:
+        if [b[4] for b in blocks if '.x' not in b[4]] != [m['message'].split(':', 1)[0] for m in jm]:
             return dict(ok=False, nt=True, key='plain-vs-json:messages', cnt=cnt, obs=None,
                         detail=dict(src=src, plain=[b[4] for b in blocks],
                                     json=[m['message'].split(':', 1)[0] for m in jm]))
@@ -259,7 +264,7 @@ class C14(core.Check):
             else:
                 return dict(ok=False, nt=True, key='xml:not-well-formed', cnt=cnt, obs=None,
                             detail=dict(src=src, xml=xt[:800], error=str(e)))
-        errs = [e for e in root.findall('error') if e.get('msg').startswith('MSG')]
+        errs = [e for e in root.findall('error') if e.get('msg').startswith('MSG') and '.x' not in e.get('msg').split(':', 1)[0]]
         if [e.get('msg').split(':', 1)[0] for e in errs] != [m['message'].split(':', 1)[0] for m in jm]:
             return dict(ok=False, nt=True, key='xml-vs-json:messages', cnt=cnt, obs=None, detail=dict(src=src, xml=xt[:800]))
         for e in errs:
@@ -556,7 +561,7 @@ class C14(core.Check):
     def quotas(self, tier):
         return {'fam_doc': 40, 'docs_with_own_checks': 10, 'plain_input_docs': 8, 'flagged_words_judged': 300, 'fam_ml': 25, 'ml_words_judged': 100,
                 'ml_runs_with_several_parts': 10, 'ml_short_parts': 5, 'pairs_judged': 50, 'server_requests': 10, 'server_option_checks': 10,
-                'docs_with_non_ascii_words': 5, 'split_words': 20, 'ml_repeated_parts': 8}
+                'docs_with_non_ascii_words': 5, 'split_words': 20, 'ml_repeated_parts': 8, 'docs_with_enclosing_match': 15}
 
 
 CHECK = C14
